@@ -77,9 +77,14 @@ def _view_lens(root, fresh, views):
 
 
 def run_lockstep(rec: edits.Recorder, intern: obs.Interner, tid: int, seed: int, src: str, nsteps: int, npat: int = 2,
-                 misc_p: float = 0.2, unpar_p: float = 0.3):
+                 misc_p: float = 0.2, unpar_p: float = 0.3, sweep: bool = False):
+    """sweep=True: instead of random planning, a systematic list of layout-only edits (edits.plan_misc_sweep: line
+    comments replaced / deleted on the statements that END the most enclosing blocks, par() / unpar() next to keywords,
+    docstrings) is executed with every cache warm (pattern 'all'): the edits whose only effect on other nodes is on
+    *derived* cached answers (bloc, pars, src of enclosing blocks)."""
     rng = random.Random(seed)
     roots = [FST(src, 'exec') for _ in range(npat)]
+    queue = edits.plan_misc_sweep(rng, roots[0].a, src, nsteps) if sweep else None
 
     def observe_all():
         out = []
@@ -102,12 +107,14 @@ def run_lockstep(rec: edits.Recorder, intern: obs.Interner, tid: int, seed: int,
     trace = {'id': tid, 'seed': seed, 'init': init, 'steps': []}
     script = []
     for _ in range(nsteps):
-        if rng.random() < misc_p:
+        if queue is not None and not queue:
+            break
+        if queue is not None or rng.random() < misc_p:
             # other edits: put_docstr / put_line_comment / par() / unpar() of redundant parentheses, also in lock-step
-            m = edits.plan_misc(rng, roots[0].a, roots[0].src, unpar_p)
+            m = queue.pop(0) if queue is not None else edits.plan_misc(rng, roots[0].a, roots[0].src, unpar_p)
             if m is not None:
                 pre_src = roots[0].src
-                pattern = rng.choice(PATTERNS)
+                pattern = 'all' if queue is not None else rng.choice(PATTERNS)
                 views_per_run = [[] for _ in roots]
                 fake = edits.Plan()
                 fake.path, fake.field = m.path, 'body'
